@@ -6,6 +6,11 @@
 (*  EmitMode = "final": for -simulate; calls before the last one must succeed and change the tree   *)
 (*     (a failing call changes nothing, so it is only interesting as the last call of a history);   *)
 (*     histories of length MaxLen are printed by the invariant Emit.                                 *)
+(*  EmitMode = "content": like "action", for the CONTENT family (all contents, few names): once a   *)
+(*     file exists only its own content and the contents that collide with it under partial         *)
+(*     sampling are written (Partners: same bytes, same first KiB / same last KiB / same both),     *)
+(*     into the same file or next to it.  Names are interchangeable there, so the first object is   *)
+(*     made under the smallest name only (the mirror images are not generated).                      *)
 (* A call is [op, p (path argument or <<>>), x (id argument or NoOid), c (content id or 0), tg].    *)
 (* Hazard tags are computed here, over the call sequence: DESIGN.md 5.2.                            *)
 EXTENDS ProviderModel, Json
@@ -42,7 +47,7 @@ Try(call, r) ==
   /\ (EmitMode = "final" /\ Len(h) < MaxLen - 1) => (r.errs = {} /\ r.fs # fs)
   /\ Do(r)
   /\ h' = Append(h, call)
-  /\ (EmitMode = "action") => PrintT("@@" \o ToJson(Out(h')))
+  /\ (EmitMode \in {"action", "content"}) => PrintT("@@" \o ToJson(Out(h')))
 
 \* ids worth passing.  id-style: every id ever issued and one never issued.  path-style: every path that is or was
 \* the path of an object (any case variant), and one path that never was.
@@ -52,16 +57,28 @@ GenOidArgs ==
                                    \/ \E i \in 1..Len(feed) : (feed[i].oid = Norm(p) \/ feed[i].prior = Norm(p))}
            free == Paths \ used
        IN  used \cup (IF free = {} THEN {} ELSE {CHOOSE p \in free : TRUE})
-\* simulation: two of the contents per step (which two changes along the walk), to keep the branching moderate
-GenContents == IF EmitMode = "final" THEN {c \in Contents : c % 5 = (Len(h) + nextOid) % 5} ELSE Contents
+\* contents of the live files
+LiveContents == {fs[o].content : o \in {q \in Live(fs) : fs[q].type = FILE}}
+Near         == Contents \cap UNION {Partners(c) : c \in LiveContents}
+\* simulation: one group of colliding contents per step, to keep the branching moderate: on even steps the group
+\* changes along the walk, on odd steps it is the group(s) of the files that exist (same bytes / colliding bytes
+\* written over or next to them)
+Rotating     == {c \in Contents : Group(c) = ((Len(h) + nextOid) % NGroups) + 1}
+GenContents  == IF EmitMode = "final" THEN (IF Len(h) % 2 = 1 /\ Near # {} THEN Near ELSE Rotating)
+                ELSE IF EmitMode = "content" THEN (IF Near # {} THEN Near ELSE Contents)
+                ELSE Contents
+
+\* path arguments: in the content family, as long as no object was ever made, only the smallest name
+MinName  == CHOOSE n \in Names : \A m \in Names : n <= m
+GenPaths == IF EmitMode = "content" /\ Len(fs) = 1 THEN {<<MinName>>} ELSE Paths
 
 GenInit == PInit /\ h = <<>>
 GenNext ==
   /\ Len(h) < MaxLen
-  /\ \/ \E p \in Paths, c \in GenContents : Try(Call("create", p, NoOid, c, {}), PCreate(fs, nextOid, p, c))
-     \/ \E p \in Paths : Try(Call("mkdir", p, NoOid, 0, {}), PMkdir(fs, nextOid, p))
+  /\ \/ \E p \in GenPaths, c \in GenContents : Try(Call("create", p, NoOid, c, {}), PCreate(fs, nextOid, p, c))
+     \/ \E p \in GenPaths : Try(Call("mkdir", p, NoOid, 0, {}), PMkdir(fs, nextOid, p))
      \/ \E x \in GenOidArgs, c \in GenContents : Try(Call("upload", <<>>, x, c, OidTags(x)), PUpload(fs, nextOid, x, c))
-     \/ \E x \in GenOidArgs, p \in Paths :
+     \/ \E x \in GenOidArgs, p \in GenPaths :
            LET r == PRename(fs, nextOid, x, p) IN Try(Call("rename", p, x, 0, RenameTags(r) \cup OidTags(x)), r)
      \/ \E x \in GenOidArgs : Try(Call("delete", <<>>, x, 0, OidTags(x)), PDelete(fs, nextOid, x))
 GenSpec == GenInit /\ [][GenNext]_gvars
